@@ -16,6 +16,7 @@ import c_xform
 import c_proj
 import c_metric
 import c_approx
+import c_arc
 import re
 import sym
 
@@ -325,6 +326,35 @@ def unit_C18(src):
     return u
 
 
+def unit_arc(src, prop):
+    """C15 (between_vectors, from_arc) and C14 (nlerp, slerp, lerp)"""
+    u = Unit(prop, src, 'R')
+    lib, F = full_base(u, 'Rad')
+    c_conv.build(lib, F)
+    u.spec_texts.append(lib.text())
+    u.spec_texts.append(c_conv.text_specs())
+    u.spec_texts.append(c_arc.text_specs())
+    rh, rp = c_rot.shape_hints(F)
+    u.contract_fns.insert(0, c_rot.contracts(rh, 'Rad'))
+    c_rot.select_c06(u)
+    hints, polys = c_conv.shape_hints(F)
+    u.contract_fns.insert(0, c_conv.contracts(hints, 'Rad'))
+    c_conv.select(u)
+    u.spec_texts.append(c_metric.text_specs())
+    u.contract_fns.insert(0, c_metric.contracts)
+    c_metric.select(u)
+    u.contract_fns.insert(0, c_arc.contracts)
+    c_arc.select(u)
+    if prop == 'C15':
+        own = lambda im, f: im is not None and f.name in ('between_vectors', 'from_arc')
+    else:
+        own = lambda im, f: im is not None and (f.name in ('nlerp', 'slerp') or (f.name == 'lerp'))
+    u.assume_pred = lambda im, f: not own(im, f)
+    u.lemma_texts.append(sym.HELPER_LEMMAS)
+    add_laws(u, c_arc.laws(F) if prop == 'C15' else c_arc.laws_c14(F))
+    return u
+
+
 def trait_name_of(im):
     from emit import trait_name
     return trait_name(im.trait)
@@ -342,7 +372,7 @@ def build_C03(src, tier):
     return [unit_C03(src, 'R')]
 
 
-UNITS = {'C18': lambda src, tier: [unit_C18(src)], 'C11': lambda src, tier: [unit_C11(src)], 'C10': lambda src, tier: [unit_C10(src, 'Rad'), unit_C10(src, 'Deg')], 'C08': lambda src, tier: [unit_C08(src, 'q'), unit_C08(src, 'b3'), unit_C08(src, 'b2')], 'C05': lambda src, tier: [unit_conv(src, 'C05', 'Rad')], 'C07': lambda src, tier: [unit_conv(src, 'C07', 'Rad'), unit_conv(src, 'C07', 'Deg')], 'C06': lambda src, tier: [unit_C06(src, 'Rad'), unit_C06(src, 'Deg')], 'C13': lambda src, tier: [unit_C13(src, 'R')], 'C04': lambda src, tier: [unit_C04(src, 'R')], 'C02': lambda src, tier: [unit_C02(src, 'R'), unit_C02t(src)], 'C01': lambda src, tier: [unit_C01(src, 'R'), unit_C01t(src, 'R')], 'C03': build_C03, 'C12': lambda src, tier: [unit_C12(src, 'R')]}
+UNITS = {'C15': lambda src, tier: [unit_arc(src, 'C15')], 'C14': lambda src, tier: [unit_arc(src, 'C14')], 'C18': lambda src, tier: [unit_C18(src)], 'C11': lambda src, tier: [unit_C11(src)], 'C10': lambda src, tier: [unit_C10(src, 'Rad'), unit_C10(src, 'Deg')], 'C08': lambda src, tier: [unit_C08(src, 'q'), unit_C08(src, 'b3'), unit_C08(src, 'b2')], 'C05': lambda src, tier: [unit_conv(src, 'C05', 'Rad')], 'C07': lambda src, tier: [unit_conv(src, 'C07', 'Rad'), unit_conv(src, 'C07', 'Deg')], 'C06': lambda src, tier: [unit_C06(src, 'Rad'), unit_C06(src, 'Deg')], 'C13': lambda src, tier: [unit_C13(src, 'R')], 'C04': lambda src, tier: [unit_C04(src, 'R')], 'C02': lambda src, tier: [unit_C02(src, 'R'), unit_C02t(src)], 'C01': lambda src, tier: [unit_C01(src, 'R'), unit_C01t(src, 'R')], 'C03': build_C03, 'C12': lambda src, tier: [unit_C12(src, 'R')]}
 import kani_driver
 KANI = kani_driver.GROUPS
 META = {
